@@ -79,7 +79,7 @@ Canon(t) == LET kids == [i \in DOMAIN t.ch |-> Canon(t.ch[i])] IN
                  [t EXCEPT !.keys = sk, !.ch = [i \in DOMAIN sk |-> kids[IndexOf(sk[i], t.keys)]]]
             ELSE [t EXCEPT !.ch = kids]
 RECURSIVE Sortable(_)
-Sortable(t) == /\ t.k \in {"dict", "ddict"} => (AllComparable(t.keys) \/ SameTypeComparable(t.keys))
+Sortable(t) == /\ t.k \in {"dict", "ddict"} => ((AllComparable(t.keys) \/ SameTypeComparable(t.keys)) /\ NoTies(t.keys))
                /\ \A i \in DOMAIN t.ch : Sortable(t.ch[i])
 PermLaw(t, c) == (~Ordered(c) /\ Sortable(t)) =>
                    LET a == F(t, c)  b == F(Canon(t), c) IN
